@@ -2,7 +2,8 @@
 
 Monitor: generated operation histories (array additions, cluster additions through
 ``add_charge`` and ``add_charge_dataframe``, reads of ``.array`` / ``.frame``, removals by id,
-resets) are executed on the real ``detector.charge`` of real detectors; after every operation
+resets; the added arrays are fresh objects or buffers that the caller keeps, refills in place and adds
+again) are executed on the real ``detector.charge`` of real detectors; after every operation
 (or, for "sparse-read" histories, only at the explicit reads and at the end) the reported
 ``detector.charge.array`` is compared with an independent per-pixel ledger (M8: exact
 rational arithmetic on the double values, no pyxel imports).  Sanitizer layer (M6): the very
@@ -24,7 +25,11 @@ TECHNIQUE = ("runtime monitoring: generated operation histories on the real Char
              "an exact-rational per-pixel ledger, re-run under the numba sanitizers (NUMBA_BOUNDSCHECK=1, "
              "NUMBA_DISABLE_JIT=1) and the default JIT with a dying-worker witness")
 RULE = ("random histories of 2-14 operations (add_charge_array float64/32/16, add_charge, add_charge_dataframe, reads "
-        "of .array and .frame, remove_from_frame by id, empty()) on CCD/CMOS/MKID/APD detectors of 1x1..8x8 pixels "
+        "of .array and .frame, remove_from_frame by id, empty()) on CCD/CMOS/MKID/APD detectors of 1x1..8x8 pixels; "
+        "the arrays added are C-ordered, Fortran-ordered, strided windows or read-only views, made for one call or "
+        "long-lived buffers of the caller that are refilled in place / added again unchanged across additions and "
+        "resets (the values at the time of each call count, the caller's arrays must keep what the caller wrote); "
+        "removals designate a random subset of the table rows through their ids, also when ids are shared; "
         "with integral and fractional, square and non-square pixel sizes; cluster positions at pixel centres, inside, "
         "exactly on borders, +-1 ulp around borders, at 0/-0/denormals, at the far edges, negative, just beyond and "
         "far beyond range; a history is non-trivial when it mixes both representations or holds a border/outside "
@@ -43,6 +48,8 @@ REQUIRED_COUNTERS = [
     "clusters_outside", "clusters_border", "clusters_ulp", "array_add_after_cluster", "cluster_after_array",
     "compares_mode_jit", "compares_mode_boundscheck", "compares_mode_nojit", "compares_with_outside_live",
     "frame_rows_checked", "histories_sparse_reads",
+    "array_adds_buffer_first_use", "array_adds_buffer_refilled", "array_adds_buffer_readded_unchanged",
+    "caller_arrays_checked",
 ]
 TIMEOUT = {"quick": 900, "thorough": 7200}
 
@@ -234,8 +241,12 @@ def gen_clusters(rng, rows, cols, h, w, allow_outside):
     return out
 
 
-def gen_array(rng, rows, cols):
-    dtype = rng.choice(["float64"] * 6 + ["float32"] * 2 + ["float16"])
+ARRAY_LAYOUTS = ["c"] * 5 + ["f", "view", "readonly"]
+
+
+def gen_array(rng, rows, cols, dtype=None):
+    if dtype is None:
+        dtype = rng.choice(["float64"] * 6 + ["float32"] * 2 + ["float16"])
     style = rng.choice(["ints", "ints", "eighths", "sub_unit", "sparse", "zeros", "large", "ramp"])
     vals = []
     for r in range(rows):
@@ -260,6 +271,28 @@ def gen_array(rng, rows, cols):
     return {"dtype": dtype, "style": style, "values": vals}
 
 
+def gen_array_op(rng, rows, cols, slots):
+    """One array addition.  The array object handed to the detector is either made for this call
+    ("buf": None) or one of the caller's long-lived buffers ("buf": slot): a buffer is allocated at
+    its first use (dtype and memory layout then stay), and at every later use it is either refilled
+    in place with new values ("refill": True) or added once more as it is ("refill": False; "values"
+    repeats what the caller wrote last).  Buffers outlive resets of the detector.
+    """
+    slot = rng.choice([0, 0, 0, 1]) if rng.random() < 0.5 else None
+    if slot is None:
+        return {"op": "add_array", **gen_array(rng, rows, cols), "layout": rng.choice(ARRAY_LAYOUTS),
+                "buf": None, "refill": True}
+    if slot not in slots:
+        arr = gen_array(rng, rows, cols)
+        slots[slot] = {"dtype": arr["dtype"], "layout": rng.choice(ARRAY_LAYOUTS), "last": arr}
+        return {"op": "add_array", **arr, "layout": slots[slot]["layout"], "buf": slot, "refill": True}
+    info = slots[slot]
+    if rng.random() < 0.35:
+        return {"op": "add_array", **info["last"], "layout": info["layout"], "buf": slot, "refill": False}
+    info["last"] = gen_array(rng, rows, cols, dtype=info["dtype"])
+    return {"op": "add_array", **info["last"], "layout": info["layout"], "buf": slot, "refill": True}
+
+
 def gen_history(rng):
     kind = rng.choice(["ccd", "cmos", "mkid", "apd"])
     shape_kind = rng.random()
@@ -281,10 +314,11 @@ def gen_history(rng):
     names = [n for n, _ in weights]
     wts = [x for _, x in weights]
     ops = []
+    slots = {}
     for _ in range(n_ops):
         op = rng.choices(names, wts)[0]
         if op == "add_array":
-            ops.append({"op": op, **gen_array(rng, rows, cols)})
+            ops.append(gen_array_op(rng, rows, cols, slots))
         elif op in ("add_cluster", "add_df"):
             ops.append({"op": op, "clusters": gen_clusters(rng, rows, cols, h, w, allow_outside),
                         "shuffle_columns": op == "add_df" and rng.random() < 0.3})
@@ -316,6 +350,7 @@ class Runner:
         self.case = {"mode": mode, "history": hist}
         self.n_viol = len(rec.violations)
         self.border_live = False
+        self.bufs = {}          # the caller's long-lived arrays: slot -> {"base", "arr", "written"}
 
     # -- reporting
     def violation(self, mech, detail, k):
@@ -334,6 +369,54 @@ class Runner:
             self.violation(f"C14:{where}:raised-{type(exc).__name__}",
                            f"{opname} (op #{k}) raised {type(exc).__name__}: {exc} :: "
                            f"{' | '.join(traceback.format_exc()[-700:].splitlines())}", k)
+
+    # -- the caller's arrays
+    def materialise(self, op, rows, cols):
+        """(array object handed to the detector, writable base the caller fills, float64 copy of the values)."""
+        import numpy as np
+        rec = self.rec
+        vals = np.array(op["values"], dtype=op["dtype"]).reshape(rows, cols)
+        slot, layout = op.get("buf"), op.get("layout", "c")
+        if slot is not None and slot in self.bufs:
+            b = self.bufs[slot]
+            if op["refill"]:
+                b["base"][...] = vals               # the caller refills its own buffer in place
+                b["written"] = vals.copy()
+                rec.count("array_adds_buffer_refilled")
+            else:
+                rec.count("array_adds_buffer_readded_unchanged")
+            return b["arr"], b["base"], b["written"]
+        if layout == "f":
+            base = np.array(vals, order="F")
+        elif layout == "view":                      # a strided window into a larger allocation
+            big = np.zeros((rows + 2, 2 * cols + 1), dtype=vals.dtype)
+            base = big[1:rows + 1, 1::2]
+            base[...] = vals
+        else:
+            base = vals.copy()
+        arr = base
+        if layout == "readonly":                    # the caller hands out a read-only view of its data
+            arr = base.view()
+            arr.flags.writeable = False
+        rec.observe("array_layouts", layout)
+        if slot is not None:
+            self.bufs[slot] = {"base": base, "arr": arr, "written": vals.copy()}
+            rec.count("array_adds_buffer_first_use")
+        return arr, base, vals
+
+    def check_callers_arrays(self, k, opname, extra=()):
+        """The detector accounts values; the arrays stay the caller's (what it wrote is still there)."""
+        import numpy as np
+        held = [(f"buffer {slot}", b["base"], b["written"]) for slot, b in self.bufs.items()] + list(extra)
+        for label, base, written in held:
+            self.rec.count("caller_arrays_checked")
+            if not np.array_equal(base, written):
+                diff = np.argwhere(base != written)[:4].tolist()
+                self.violation("C14:add_array:callers-array-modified",
+                               f"after op #{k} ({opname}) the caller's {label} no longer holds the values the "
+                               f"caller wrote: first differing cells {diff}, holds "
+                               f"{[float(base[tuple(d)]) for d in diff]}, written "
+                               f"{[float(written[tuple(d)]) for d in diff]}", k)
 
     def compare(self, charge, ledger, k, opname):
         import numpy as np
@@ -395,12 +478,14 @@ class Runner:
             name = op["op"]
             rec.count("ops")
             if name == "add_array":
-                arr = np.array(op["values"], dtype=op["dtype"]).reshape(rows, cols)
-                exact = arr.astype(np.float64).tolist()
+                arr, base, written = self.materialise(op, rows, cols)
+                exact = written.astype(np.float64).tolist()
                 self.guarded(k, name, lambda: charge.add_charge_array(arr), ledger)
                 ledger.add_array(exact)
                 rec.count("array_adds")
                 rec.observe("array_dtypes", op["dtype"])
+                if op.get("buf") is None:
+                    self.check_callers_arrays(k, name, extra=[("array of this call", base, written)])
                 if seen_cluster:
                     rec.count("array_add_after_cluster")
                 seen_array = seen_array or any(v > 0 for row in exact for v in row)
@@ -475,9 +560,11 @@ class Runner:
                     self.violation("C14:reset:frame-not-empty",
                                    f"after empty() the cluster table still holds {len(frame)} row(s)", k)
                 continue
+            self.check_callers_arrays(k, name)
             if not sparse:
                 self.compare(charge, ledger, k, name)
         self.compare(charge, ledger, len(hist["ops"]), "end-of-history")
+        self.check_callers_arrays(len(hist["ops"]), "end-of-history")
         # a final reset always returns everything to zero
         self.guarded(len(hist["ops"]), "reset", charge.empty, ledger)
         ledger.reset()
@@ -504,9 +591,11 @@ class Runner:
         rec = self.rec
         rows = self.check_frame(charge, ledger, k)
         labels = [r[0] for r in rows]
-        if len(set(labels)) != len(labels):
-            rec.count("remove_skipped_duplicate_ids")
-            return False
+        # a removal designates clusters through the only public handle, their ids in .frame; when
+        # an id is carried by several clusters the clusters that were *not* designated must stay
+        shared = len(set(labels)) != len(labels)
+        if shared:
+            rec.count("remove_with_shared_ids")
         sel = random.Random(op["sel"])
         if not rows:
             # nothing to remove: removing "all" of nothing must change nothing
@@ -555,7 +644,8 @@ class Runner:
             collections.Counter((n, y, x) for _l, n, y, x in chosen)
         have = collections.Counter((n, y, x) for _l, n, y, x in after)
         if want != have:
-            self.violation("C14:remove:frame-rows-differ",
+            self.violation("C14:remove:shared-id-removes-undesignated-clusters" if shared else
+                           "C14:remove:frame-rows-differ",
                            f"removed ids {ids} of {labels}: rows that should remain but do not "
                            f"{list((want - have).items())[:4]}, rows that should be gone but remain "
                            f"{list((have - want).items())[:4]}", k)
@@ -572,7 +662,7 @@ def history_signature(mode, hist):
     ops = []
     for op in hist["ops"]:
         if op["op"] == "add_array":
-            ops.append(("a", op["dtype"], op["values"]))
+            ops.append(("a", op["dtype"], op["values"], op.get("layout"), op.get("buf"), op.get("refill")))
         elif op["op"] in ("add_cluster", "add_df"):
             ops.append((op["op"], [(c["n"], repr(c["y"]), repr(c["x"])) for c in op["clusters"]]))
         else:
@@ -677,6 +767,8 @@ def finalize(counters, sets, tier):
         out.append(f"pixel size kinds observed: {sets.get('pixel_size_kinds')}")
     if not {"1x1", "8x8"} <= set(sets.get("shapes", [])):
         out.append("1x1 or 8x8 detector never generated")
+    if set(sets.get("array_layouts", [])) != set(ARRAY_LAYOUTS):
+        out.append(f"array layouts observed: {sets.get('array_layouts')}")
     missing = (set(INSIDE_CLASSES) | set(OUTSIDE_CLASSES)) - set(sets.get("position_classes", []))
     if missing:
         out.append(f"position classes never generated: {sorted(missing)}")
